@@ -63,8 +63,10 @@ def _c08_runs(tier, seed, replay):
                 ["log", "--seed", S(seed, 3), "--n", "150", "--maxops", "30"],
                 ["repl", "--seed", S(seed, 4), "--n", "40", "--maxlen", "70"],
                 ["repl", "--seed", S(seed, 5), "--n", "40", "--maxlen", "24"],
-                ["log", "--kind", "words", "--seed", S(seed, 6), "--n", "60"]]
+                ["log", "--kind", "words", "--seed", S(seed, 6), "--n", "60"],
+                ["repl", "--kind", "page", "--seed", S(seed, 7), "--n", "1"]]
     return ([["log", "--kind", "large", "--seed", S(seed, 10 + i), "--n", "4"] for i in range(6)]
+            + [["repl", "--kind", "page", "--seed", S(seed, 60 + i), "--n", "1"] for i in range(3)]
             + [["repl", "--seed", S(seed, 40 + i), "--n", "150", "--maxlen", "32"] for i in range(3)]
             + [["log", "--kind", "words", "--seed", S(seed, 50 + i), "--n", "300"] for i in range(3)]
             + [["crash", "--kind", "large", "--seed", S(seed, 20 + i), "--n", "2"] for i in range(4)]
@@ -248,7 +250,7 @@ PROPS = {
         bridge_modules=["HC.Bridge.Stores"], bridging=STORES_BRIDGE,
         runs=_c08_runs,
         partial="proved: the incremental rule for every sequence of range updates (contig_reachable); and on the model of the whole crate, for a writer core after any history of calls and reopen steps and after recovery from a crash at any storage operation (bitfield pages ahead of the header hint), has() = the held set and contiguous_length = the first missing index (writer_exact, recovered_exact), page (de)serialisation included. Not proved: replicas receiving blocks out of order; that the Rust page/word/mask arithmetic realises setRange is validated by the correspondence run (cores up to 70k blocks, has() scanned on every index)",
-        rule="cores filled past 8192, 32768 and 65536 blocks, clears straddling word/page edges, reopen and crash recovery in between; has() on every index below length+2 and on boundary indices of the next pages; contiguous_length compared with the first missing index",
+        rule="cores filled past 8192, 32768 and 65536 blocks, clears straddling word/page edges, reopen and crash recovery in between; a replica that fills a whole 32768-bit page out of order and closes the gap at the hint last; has() on every index below length+2 and on boundary indices of the next pages; contiguous_length compared with the first missing index",
         trusted=LOG_TRUSTED, assumptions=["range updates have positive length"],
     ),
     "C11": dict(
